@@ -35,6 +35,8 @@ fn dispatch(kind: &str, args: &[&str]) -> String {
         "conv" => k_conv::run(args),
         "fmt" => k_fmt::run(args),
         "f32sweep" => k_fmt::sweep(args),
+        "blockhdr" => k_fmt::blockhdr(args),
+        "devrep" => k_dev::run_rep(args),
         "nv" => k_nv::run(args),
         "enum" | "enumv" => k_enum::run(kind, args),
         "nlist" | "clist" => k_list::run(kind, args),
